@@ -98,24 +98,33 @@ def stage_traces(ctx, race=False):
         rp = {'kind': 'trace', 'script': sc}
         try:
             r = sshutil.run(c11_scen.run_script(sc), timeout=120)
+        except c11_scen.Stall as e:
+            stats['stalls'] = stats.get('stalls', 0) + 1
+            ctx.failing_input(f'scripted session stalled during {e} (rekey_bytes c/s {sc["rb_c"]}/{sc["rb_s"]})',
+                              dict(rp, **{'class': 'stalled', 'clause': 'order'}))
+            if stats['stalls'] >= 3:
+                break
+            continue
         except Exception as e:
             ctx.broke('harness:trace', f'{e!r} on {json.dumps(sc)[:600]}')
             if sum(1 for b in ctx.broken if b['name'] == 'harness:trace') >= 3:
                 break
             continue
         judge_script(ctx, r, rp, col, stats, i)
+        if stats.get('bad_sessions', 0) >= 12:
+            break           # a broken tree: the picture is clear, keep the run cheap
     run_coq(ctx, 'race' if race else 'trace', col)
     ctx.cov['oracle']['race' if race else 'trace'] = stats
     if race:
         if stats['race_steps'] < n:
             ctx.broke('vacuity:race', 'too few raced writes generated')
         return
-    if stats['exchanges'] < 2 * n:
+    if stats['exchanges'] < 2 * n and not stats.get('stalls') and not stats.get('bad_sessions'):
         ctx.broke('vacuity:rekeys', f'only {stats["exchanges"]} completed exchanges in {n} sessions')
     if stats['keyed'] == 0:
         ctx.cov['extra_assumptions'] = ['asyncssh.connection.get_encryption is gone: installed keys were not observed '
                                         'directly in asyncssh<->asyncssh sessions (MiniSSH sessions still check them)']
-    if stats['hostile'] == 0:
+    if stats['hostile'] == 0 and not stats.get('stalls') and not stats.get('bad_sessions'):
         ctx.broke('vacuity:hostile', 'no session reached the unsolicited-NEWKEYS tail')
 
 
@@ -127,6 +136,8 @@ def judge_script(ctx, r, rp, col, stats, i):
     stats['race_steps'] += sum(1 for s in sc['steps'] if s[0] == 'R')
     victim = r.get('victim')
     sender = sc.get('hostile') if victim else None
+    if r['problems'] or r['diff'] or any(v != 'none' for v in r['lost_before_hostile'].values()):
+        stats['bad_sessions'] = stats.get('bad_sessions', 0) + 1
     for kind, msg in r['problems']:
         ctx.failing_input(f'scripted session: {msg}', dict(rp, **{'class': kind, 'clause': kind}))
     for key, kind, ns, ng in r['diff']:
@@ -166,12 +177,26 @@ def stage_busy(ctx):
         rp = {'kind': 'busy', 'script': sc}
         try:
             r = sshutil.run(c11_scen.run_busy(sc), timeout=180)
+        except c11_scen.Stall as e:
+            stats['stalls'] = stats.get('stalls', 0) + 1
+            ctx.failing_input(f'busy session stalled during {e} (rekey_bytes c/s {sc["rb_c"]}/{sc["rb_s"]})',
+                              dict(rp, **{'class': 'stalled', 'clause': 'order'}))
+            if stats['stalls'] >= 3:
+                break
+            continue
         except Exception as e:
             ctx.broke('harness:busy', f'{e!r} on {json.dumps(sc)[:400]}')
             if sum(1 for b in ctx.broken if b['name'] == 'harness:busy') >= 3:
                 break
             continue
         stats['sessions'] += 1
+        if r['problems'] or r['diff']:
+            stats['bad_sessions'] = stats.get('bad_sessions', 0) + 1
+            if stats['bad_sessions'] >= 4:
+                ctx.log('busy stage cut short: 4 sessions failed')
+                for kind, msg in r['problems']:
+                    ctx.failing_input(f'busy session: {msg}', dict(rp, **{'class': kind, 'clause': 'order'}))
+                break
         stats['bytes'] += sum(len(v) for v in r['streams'].sent.values())
         for kind, msg in r['problems']:
             ctx.failing_input(f'busy session: {msg}', dict(rp, **{'class': kind, 'clause': 'order'}))
@@ -190,7 +215,7 @@ def stage_busy(ctx):
         ctx.note_case(('busy', json.dumps(sc, sort_keys=True)), nontrivial=nontriv)
     run_coq(ctx, 'busy', col)
     ctx.cov['oracle']['busy'] = stats
-    if stats['exchanges'] < 3 * n:
+    if stats['exchanges'] < 3 * n and not stats.get('stalls') and not stats.get('bad_sessions'):
         ctx.broke('vacuity:busy-rekeys', f'only {stats["exchanges"]} completed exchanges in {n} busy sessions')
 
 
@@ -207,7 +232,8 @@ def stage_mini(ctx):
             # MiniSSH failing to decode / verify what asyncssh sent across a re-key is the property failing
             ctx.failing_input(f'independent peer could not complete the session across re-keys: {e!r}',
                               dict(rp, **{'class': 'mini-failed', 'clause': 'fresh'}))
-            if sum(1 for _ in range(1)) and ctx.violations >= 3:
+            stats['failed'] = stats.get('failed', 0) + 1
+            if stats['failed'] >= 3:
                 break
             continue
         stats['sessions'] += 1
@@ -234,9 +260,9 @@ def stage_mini(ctx):
         ctx.count('mini.role.' + sc['role'])
     run_coq(ctx, 'mini', col)
     ctx.cov['oracle']['mini'] = stats
-    if stats['sessions'] and stats['old_key_checks'] < stats['sessions']:
+    if stats['sessions'] and stats['old_key_checks'] < stats['sessions'] and not stats.get('failed'):
         ctx.broke('vacuity:old-keys', f'old-key rejection checked only {stats["old_key_checks"]} times')
-    if stats['sessions'] and stats['alg_changes'] < stats['sessions'] // 2:
+    if stats['sessions'] and stats['alg_changes'] < stats['sessions'] // 2 and not stats.get('failed'):
         ctx.broke('vacuity:alg-changes', f'algorithms changed between exchanges only {stats["alg_changes"]} times')
 
 
